@@ -186,3 +186,58 @@ Section Items.
     Qed.
   End WithFloat.
 End Items.
+
+(* ---- [occurs] is monotone in the selection and has witnesses ---- *)
+Section Mono.
+  Variables q1 q2 qn : str -> bool.
+  Hypothesis Hq : forall m, q1 m = true -> q2 m = true.
+
+  Lemma occurs_mono t : occurs q1 qn t = true -> occurs q2 qn t = true.
+  Proof.
+    induction t as [l IH|n|v|n] using item_ind'; try (cbn [occurs]; auto; fail).
+    rewrite !occurs_list_unfold. unfold occurs_list. induction l as [|c r IHl]; cbn [existsb]; [auto|].
+    inversion IH; subst. rewrite !orb_true_iff. intros [H|H]; [left|right]; auto.
+  Qed.
+  Lemma occurs_list_mono l : occurs_list q1 qn l = true -> occurs_list q2 qn l = true.
+  Proof.
+    unfold occurs_list. rewrite !existsb_exists. intros (x & Hx & H). exists x. split; [assumption|now apply occurs_mono].
+  Qed.
+  Lemma occurs_state_mono s : occurs_state q1 qn s = true -> occurs_state q2 qn s = true.
+  Proof.
+    unfold occurs_state. rewrite !orb_true_iff. intros [[[H|H]|H]|H]; auto using occurs_list_mono.
+  Qed.
+End Mono.
+
+Section Witness.
+  Variable q : str -> bool.
+  Definition is_name (m : str) : str -> bool := fun k => str_eqb k m.
+
+  Lemma occurs_witness t : occurs q nowhere t = true -> exists m, q m = true /\ occurs (is_name m) nowhere t = true.
+  Proof.
+    induction t as [l IH|n|v|n] using item_ind'; try (cbn [occurs nowhere]; discriminate).
+    - rewrite occurs_list_unfold. unfold occurs_list. induction l as [|c r IHl]; cbn [existsb]; [discriminate|].
+      inversion IH; subst. rewrite orb_true_iff. intros [H|H].
+      + destruct (H1 H) as (m & Hm & Ho). exists m. split; [assumption|].
+        rewrite occurs_list_unfold. unfold occurs_list. cbn [existsb]. now rewrite Ho.
+      + destruct (IHl H2 H) as (m & Hm & Ho). exists m. split; [assumption|].
+        rewrite occurs_list_unfold in *. unfold occurs_list in *. cbn [existsb]. rewrite Ho. apply orb_true_r.
+    - cbn [occurs]. intros H. exists n. split; [assumption|]. unfold is_name.
+      clear. induction n as [|x r IH]; cbn [str_eqb]; [reflexivity|]. now rewrite Z.eqb_refl, IH.
+  Qed.
+  Lemma occurs_list_witness l : occurs_list q nowhere l = true ->
+    exists m, q m = true /\ occurs_list (is_name m) nowhere l = true.
+  Proof.
+    unfold occurs_list. rewrite existsb_exists. intros (x & Hx & H).
+    destruct (occurs_witness _ H) as (m & Hm & Ho). exists m. split; [assumption|].
+    apply existsb_exists. eauto.
+  Qed.
+  Lemma occurs_state_witness s : occurs_state q nowhere s = true ->
+    exists m, q m = true /\ occurs_state (is_name m) nowhere s = true.
+  Proof.
+    unfold occurs_state. rewrite !orb_true_iff. intros [[[H|H]|H]|H].
+    - destruct (occurs_list_witness _ H) as (m & Hm & Ho). exists m. rewrite Ho. auto.
+    - destruct (occurs_list_witness _ H) as (m & Hm & Ho). exists m. rewrite Ho, orb_true_r. auto.
+    - destruct (occurs_list_witness _ H) as (m & Hm & Ho). exists m. rewrite Ho, !orb_true_r. auto.
+    - exfalso. clear -H. induction (st_name s); cbn in H; [discriminate|auto].
+  Qed.
+End Witness.
